@@ -25,7 +25,7 @@ import os
 
 import common
 from common import driver, sx
-from props import c15_gen, c15_psykal
+from props import c15_gen, c15_psykal, c15_holders
 
 MODE = "deployed"
 
@@ -251,6 +251,8 @@ def type_links(dt):
         return [dt.precision] if isinstance(dt.precision, DataSymbol) else []
     if isinstance(dt, ArrayType):
         out = type_links(dt.datatype)
+        if isinstance(dt.intrinsic, DataTypeSymbol) and not any(dt.intrinsic is x for x in out):
+            out.append(dt.intrinsic)
         if isinstance(dt.precision, DataSymbol) and not any(dt.precision is x for x in out):
             out.append(dt.precision)
         return out
@@ -507,7 +509,27 @@ def do_copy(ctx, r):
         fail = decl_nodes_disjoint(ctx)
     if fail is None:
         fail = original_untouched(ctx)
+    if fail is None:
+        fail = generic_leak(ctx, skip=tuple(a.split(".")[1].split(" ")[0] for a in c15_holders.KNOWN_DEFECT))
+    # holders that exist only through a listed defect are reported apart (they must not mask anything)
+    ctx.known_leak = generic_leak(ctx, only=tuple(a.split(".")[1].split(" ")[0] for a in c15_holders.KNOWN_DEFECT))
     return fail
+
+
+def generic_leak(ctx, skip=(), only=None):
+    """the generic form of disjoint + internal, by introspection: NO attribute path at all leads from the copy to
+    a symbol of the original's copied scopes or to a node of the original subtree / of its declarations"""
+    from psyclone.psyir.nodes import Node
+    own_nodes = list(ctx.sub.walk(Node))
+    for s in ctx.sub_owned:
+        own_nodes += decl_nodes(s)
+    lk = c15_holders.leaks(ctx.copy, ctx.sub_owned, own_nodes, skip=skip, only=only)
+    if lk is None:
+        return None
+    path, obj = lk
+    what = f"symbol '{obj.name}'" if hasattr(obj, "interface") else f"node {type(obj).__name__}"
+    return {"clause": "leak", "observed": f"the copy reaches {what} of the ORIGINAL's copied subtree through the "
+            f"attribute path {path}", "expected": "nothing of the original's copied subtree is reachable from the copy"}
 
 
 def decl_nodes_disjoint(ctx):
@@ -848,6 +870,7 @@ def run_case(src, tweaks, r, side, edits=None, rng=None, nedits=0, want_model=Tr
     if ctx.copy is None:
         out.update(status="fail", fail=fail)
         return out
+    out["known_leak"] = getattr(ctx, "known_leak", None)
     ctx.is_closed = closed(ctx)
     ctx.added = {}
     out["closed"] = ctx.is_closed
@@ -1077,6 +1100,7 @@ def run(chk):
     stats = {"node_class": {}, "side": {}, "edits": {}, "closed": 0, "frontend_broken": 0, "refused": {},
              "subtree_nodes_max": 0, "copy_failures": 0}
     shared = {}
+    holders = {}
     lines, metas = [], []
     reported = [0]
     nviol = [0]
@@ -1097,6 +1121,16 @@ def run(chk):
             stats["closed"] += bool(res.get("closed"))
             stats["subtree_nodes_max"] = max(stats["subtree_nodes_max"], len(ctx.copy_nodes))
             shared_attrs(ctx, shared)
+            c15_holders.scan(ctx.roots, holders)
+        if res.get("known_leak") is not None:
+            stats["known_leak_cases"] = stats.get("known_leak_cases", 0) + 1
+            if not any(e["id"] in c15_holders.KNOWN_DEFECT.values() for e in known) and nviol[0] < 3 \
+                    and res["status"] != "fail":
+                pay = payload_of(src, tweaks, dict(res, fail=res["known_leak"]), side)
+                if common.h(pay) not in seen_viol:
+                    seen_viol.add(common.h(pay))
+                    nviol[0] += 1
+                    chk.violation(pay)
         if res["status"] == "fail":
             if res["fail"]["clause"] == "edit_independent" and len(res["applied"]) > 1:
                 small = shrink_edits(src, tweaks, res["r"], side, res["applied"])
@@ -1225,6 +1259,13 @@ def run(chk):
                 case, (mm[0] if which == "after copy" else mm[1]) if mm else mo[:300],
                 res["real1"] if which == "after copy" else res["real2"])
     stats["shared_by_copy"] = dict(sorted(shared.items(), key=lambda kv: -kv[1])[:40])
+    # the holders of nodes / symbols / datatypes found by introspection must all be known to the model
+    stats["holders"] = dict(sorted(holders.items()))
+    for hname in c15_holders.unknown(holders)[:3]:
+        chk.correspondence_broken(
+            "an attribute that holds a Node / Symbol / DataType object is not known to the model and the exporter "
+            "(harness/props/c15_holders.py KNOWN)", {"holder": hname, "count": holders[hname]},
+            "known holders: " + ", ".join(sorted(c15_holders.KNOWN)), hname)
     # second family: PSyKAl invoke schedules (LFRic, GOcean), real objects only
     known_classes = {e["id"][len("C15-"):] for e in known if e["id"].startswith("C15-psykal-")}
     stats["psykal"] = c15_psykal.run_family(chk, 300 if chk.tier == "thorough" else 24, known_classes)
@@ -1249,7 +1290,7 @@ def run(chk):
                            want_model=False)
         except Exception as ex:   # pylint: disable=broad-except
             raise common.Infra(f"known finding {e['id']} cannot be replayed: {ex}")
-        if res["status"] == "fail":
+        if res["status"] == "fail" or (w.get("clause") == "leak" and res.get("known_leak") is not None):
             chk.known(e["what"])
 
 
@@ -1302,6 +1343,8 @@ def replay(payload):
     print("tweaks:", payload["tweaks"])
     print(f"copied node #{payload['node']} ({res.get('node_class')}); edits of the {payload['edited_side']} side:",
           res.get("applied"))
+    if res["status"] != "fail" and payload.get("clause") == "leak" and res.get("known_leak") is not None:
+        res = dict(res, status="fail", fail=res["known_leak"])
     if res["status"] == "fail":
         print("clause:  ", res["fail"]["clause"])
         print("observed:", res["fail"]["observed"])
